@@ -103,6 +103,11 @@ func stamp() string {
 			return nil
 		})
 	}
+	for _, extra := range []string{SubjectInventoryFile(), UserRulesFile(), UserCommentRulesFile(), filepath.Join(VerifRoot(), "corpus", "synth", "index.json")} {
+		if b, err := os.ReadFile(extra); err == nil {
+			h.Write(b)
+		}
+	}
 	h.Write([]byte(common.RepoDir))
 	return hex.EncodeToString(h.Sum(nil))[:16]
 }
